@@ -17,6 +17,7 @@ func init() {
 		c08Cleanup(c)
 		c08UpgradeBranchWiring(c, "C08.4b")
 		c08AtomicClaim(c)
+		c08FlagCover(c, "C08.5b")
 		c08ListenerBeforeReader(c)
 		c01Handoff(c) // C08.7 = C01.7
 	})
@@ -474,6 +475,79 @@ func c08AtomicClaim(c *core.Ctx) {
 	}
 	c.Check(R, sockUpgrade+"/claim=CompareAndSwap(false,true)", mu.Pos(), ok, "the loser of the claim is closed and nothing is registered for it")
 	_ = types.Universe
+}
+
+// c08FlagCover: from the moment a candidate wins the claim until the session
+// is marked upgraded, at least one of the two flags the gate tests is set.
+func c08FlagCover(c *core.Ctx, R string) {
+	c.Rule(R, "flag cover (at most one switch per session under every interleaving): in the UPGRADE branch upgraded.Store(true) precedes the cleanup() that resets upgrading, so a later candidate sees at every moment upgrading ∨ upgraded; and MaybeUpgrade, after winning the CompareAndSwap claim, re-tests upgraded.Load() — on the true edge it closes the candidate and returns before registering anything (a candidate can pass the server's Upgraded() test before an earlier candidate completes the switch and claim afterwards)")
+	mu := c.Fn(R, sockUpgrade)
+	if mu == nil {
+		return
+	}
+	op := c.KidOf(R, mu, "onPacket")
+	if op != nil {
+		g := op.Graph()
+		var st, set *core.Call
+		for _, cl := range op.CallsTo(sockSetTr) {
+			st = cl
+		}
+		for _, cl := range fieldCalls(op, "socket.upgraded") {
+			if v, ok := core.ConstBool(op.Info(), cl.Arg(0)); cl.Name == "Store" && ok && v {
+				set = cl
+			}
+		}
+		ok := st != nil && set != nil
+		n := 0
+		if ok {
+			for _, cl := range op.Calls() {
+				if cl.Callee == nil && cl.Name == "cleanup" && g.Dominates(cl.Loc, st.Loc) {
+					n++
+					ok = ok && g.Dominates(set.Loc, cl.Loc)
+				}
+			}
+		}
+		pos := op.Pos()
+		if set != nil {
+			pos = set.Pos()
+		}
+		c.Check(R, sockUpgrade+"$onPacket/upgraded.Store(true)≺cleanup()", pos, ok && n >= 1, "upgraded is set before cleanup() resets upgrading: no moment with both flags clear between the claim and the switch")
+	}
+	g := mu.Graph()
+	isUpgradedLoad := func(x *core.Unit, e ast.Expr) bool {
+		ce, _ := x.AsCall(e)
+		if ce == nil {
+			return false
+		}
+		se, ok := ast.Unparen(ce.Fun).(*ast.SelectorExpr)
+		return ok && se.Sel.Name == "Load" && fieldOf(x.Info(), se.X) == "socket.upgraded"
+	}
+	already := func(x *core.Unit, br core.Branch) int {
+		if !br.IsCase && isUpgradedLoad(x, br.Cond) {
+			return 1
+		}
+		return 0
+	}
+	notYet := func(x *core.Unit, br core.Branch) int { return -already(x, br) }
+	regs, regsOK := 0, true
+	for _, e := range events(c, mu) {
+		if e.Kind == "on" || e.Kind == "once" {
+			regs++
+			regsOK = regsOK && g.GuardedBy(e.Loc, notYet)
+		}
+	}
+	closed, returned := false, false
+	for _, cl := range mu.CallsTo("transports.(Transport).Close") {
+		if g.GuardedBy(cl.Loc, already) && isCandidate(mu, cl.Recv) {
+			closed = true
+		}
+	}
+	for _, r := range returnsIn(mu) {
+		if g.GuardedBy(r.Loc, already) {
+			returned = true
+		}
+	}
+	c.Check(R, sockUpgrade+"/re-test-upgraded-after-claim", mu.Pos(), regs >= 4 && regsOK && closed && returned, keyf("%d listener registrations, all on the !upgraded.Load() edge: %v; upgraded edge closes the candidate: %v and returns: %v", regs, regsOK, closed, returned))
 }
 
 func c08ListenerBeforeReader(c *core.Ctx) {
